@@ -194,19 +194,21 @@ class FakeRG:
         return 'GRCh38'
 
 
-def make_fake_hl(get_rec, fs, rg):
+def make_fake_hl(get_rec, fs, get_rg, real_hl):
     hl = types.SimpleNamespace()
     hl.literal = lambda x: Lit(x)
     hl.eval = lambda x: x
     hl.get_vcf_header_info = lambda x: x if isinstance(x, LitIndex) else ('header', x)
     hl.rbind = lambda x, f: f(x)
     hl.enumerate = lambda lit: lit
-    hl.Struct = lambda **kw: types.SimpleNamespace(**kw)
+    hl.Struct = real_hl.Struct
+    hl.Interval = real_hl.Interval      # the real value and type classes carry the import intervals through save/load
+    hl.Locus = real_hl.Locus
     hl.struct = lambda **kw: types.SimpleNamespace(**kw)
-    hl.tstruct = FakeType
-    hl.tlocus = FakeType
-    hl.tarray = FakeType
-    hl.tinterval = FakeType
+    hl.tstruct = real_hl.tstruct
+    hl.tlocus = real_hl.tlocus
+    hl.tarray = real_hl.tarray
+    hl.tinterval = real_hl.tinterval
     hl.agg = types.SimpleNamespace(collect=lambda e: Collect(e))
     hl.utils = types.SimpleNamespace(range_table=lambda n, n_partitions=None: FakeTable())
     hl.import_gvcf_interval = lambda *a, **k: ('gvcf-stream', a[0], a[1])
@@ -244,7 +246,7 @@ def make_fake_hl(get_rec, fs, rg):
     hl.vds = types.SimpleNamespace(read_vds=read_vds, write_variant_datasets=write_variant_datasets,
                                    store_ref_block_max_length=lambda p: get_rec().max_len.append(p))
     hl.current_backend = lambda: types.SimpleNamespace(fs=fs)
-    hl.get_reference = lambda name: rg
+    hl.get_reference = lambda name: get_rg()
     hl._get_flags = lambda *a: {}
     hl._set_flags = lambda **k: None
     return hl
@@ -268,7 +270,8 @@ class C38(Prop):
                   'multiset of inputs reachable from the plan and the sample total, strictly decreases 2*#gvcfs + #datasets, and after that many '
                   'steps the plan is finished with exactly one dataset written, built from exactly the given inputs (none written when there are '
                   'none); load(save(s)) keeps gvcfs/names/branch factor/batch size and the datasets as a multiset, and is the identity on the bin '
-                  'structure when every dataset is in its natural bin.')
+                  'structure when every dataset is in its natural bin; the import intervals come back from load(save(.)) unchanged, flags included '
+                  '(save_load_intervals), so the resumed partitioning still covers every base exactly once (resumed_partition_covers).')
     level_note = ('save_load_id holds only as save_load_id_partial: _step_vdses bumps new_bin to original_bin+1 and the bump is not saved, so a '
                   'resumed run may group later merges differently (witness in Props/C38.lean); the exactly-once property is proved for every resume '
                   'schedule regardless. Partial: datasets are abstracted to the inputs they are built from (the engine merge is assumed to contain '
@@ -278,7 +281,8 @@ class C38(Prop):
     search_budget = {'quick': 2500, 'thorough': 25000}
     rule = ('two case kinds. part: (reference name, 25 contig lengths, interval size) through the real calculate_even_genome_partitioning; '
             'lengths are boundary-directed (multiples of size, +-1, 1, size, size+1). plan: (gvcf count 0-60, sample names or not, input VDS '
-            'sample counts incl. exact powers of the branch factor, branch factor 2-12, gvcf batch size 1-20, resume schedule none/every step/'
+            'sample counts incl. exact powers of the branch factor, branch factor 2-12, gvcf batch size 1-20, optional import intervals = the real '
+            'partitioning of a small 25-contig genome carried through every save->load, resume schedule none/every step/'
             'random) through the real VariantDatasetCombiner, state dumped after every step and every save->load. Non-trivial = partition with '
             '>= 2 intervals on some contig, or plan with >= 2 merge steps; distinct by case content')
     trusted = ['harness/props/c38.py recorder standing in for hl.* engine calls inside variant_dataset_combiner.py (reads/merges/writes are '
@@ -298,8 +302,8 @@ class C38(Prop):
         self.hl, self.cb, self.vdc, self.ReferenceGenome = hl, cb, vdc, ReferenceGenome
         self.rec = Recorder()
         self.fs = FakeFS()
-        self.rg = FakeRG()
-        vdc.hl = make_fake_hl(lambda: self.rec, self.fs, self.rg)
+        self.rg = None
+        vdc.hl = make_fake_hl(lambda: self.rec, self.fs, lambda: self.rg, hl)
         vdc.VariantDataset = FakeVDS
         vdc.tmatrix = FakeTM
         vdc.combine = lambda t: t
@@ -371,7 +375,13 @@ class C38(Prop):
             bf = rng.choice([0, 1])      # constructor must refuse
         if rng.random() < 0.02:
             batch = 0
-        return {'kind': 'plan', 'bf': bf, 'batch': batch, 'g': g, 'names': rng.randint(0, 1), 'vds': vds, 'resume': resume}
+        case = {'kind': 'plan', 'bf': bf, 'batch': batch, 'g': g, 'names': rng.randint(0, 1), 'vds': vds, 'resume': resume}
+        if rng.random() < 0.4:
+            # import intervals: the real calculate_even_genome_partitioning of a small genome (<= ~40 intervals: each costs ~0.2 ms per load)
+            size = rng.choice([1, 2, 3, 5, 7, 10])
+            case['ivsize'] = size
+            case['ivlens'] = [rng.choice([1, size, size + 1, max(1, size - 1), 2 * size, rng.randint(1, 2 * size)]) for _ in range(25)]
+        return case
 
     def cases(self, rng, n, tier):
         for i in range(n):
@@ -400,11 +410,33 @@ class C38(Prop):
             vs += [1000 + i, n]
         lines = ['reset',
                  ' '.join(map(str, ['init', c['bf'], c['batch'], c['names'], 'G'] + list(range(g)) + ['V'] + vs + ['F'] + self._anomalies(c)))]
+        ivline = 'ivrt ' + ' '.join(map(str, self._iv_tokens(c)))
+        legal = c['bf'] >= 2 and c['batch'] >= 1     # a refused constructor leaves nothing to reload
         for r in c['resume']:
             if r:
                 lines.append('reload')
+                if legal:
+                    lines.append(ivline.strip())
             lines.append('step')
         return lines
+
+    @staticmethod
+    def _iv_tokens(c):
+        """the closed intervals [1..L] tiled by ceil-even pieces, as (contig index, start, contig index, end, 1, 1) — computed
+        from the case alone (independent of the code under test) for the model's round trip"""
+        if not c.get('ivsize'):
+            return []
+        toks = []
+        size = c['ivsize']
+        for ci, L in enumerate(c['ivlens']):
+            nparts = -(-L // size)
+            real = -(-L // nparts)
+            n = 1
+            while n <= L:
+                e = min(n + real - 1, L)
+                toks += [ci, n, ci, e, 1, 1]
+                n = e + 1
+        return toks
 
     # ---- Part A on the real code ----
     def _run_part(self, c):
@@ -491,23 +523,90 @@ class C38(Prop):
             rec.reads[p] = 0
             mds.append(vdc.VDSMetadata(p, n))
         n_lines = 1 + sum(1 + r for r in c['resume'])
+        contigs = self.CONTIGS38
+        lens = c.get('ivlens') or [1] * 25
+        self.rg = self.ReferenceGenome('GRCh38', contigs, dict(zip(contigs, lens)), _builtin=True)
+        intervals = self.cb.calculate_even_genome_partitioning(self.rg, c['ivsize']) if c.get('ivsize') else []
+        self.load_problems = []
+        cidx = {k: i for i, k in enumerate(contigs)}
+
+        def show_ivs(ivs):
+            return ','.join(f'{cidx[i.start.contig]}:{i.start.position}-{cidx[i.end.contig]}:{i.end.position}'
+                            f'{"[" if i.includes_start else "("}{"]" if i.includes_end else ")"}' for i in ivs)
         try:
             comb = vdc.VariantDatasetCombiner(
                 save_path='/plans/plan.json', output_path=FakeVDS.output_path, temp_path='/tmp/t', reference_genome=self.rg,
                 dataset_type=vdc.CombinerOutType(FakeTM('ref'), FakeTM('var')), branch_factor=c['bf'], gvcf_batch_size=c['batch'],
                 call_fields=['PGT'], vdses=mds, gvcfs=gv, gvcf_sample_names=names, gvcf_external_header='hdr' if names is not None else None,
-                gvcf_import_intervals=[])
+                gvcf_import_intervals=intervals)
         except ValueError:
             return ['ok'] + ['err'] * n_lines, rec, None
         lines = ['ok', self._dump(comb)]
         for r in c['resume']:
             if r:
                 comb.save()
+                saved = comb
                 comb = vdc.VariantDatasetCombiner.load('/plans/plan.json')
                 lines.append(self._dump(comb))
+                lines.append(show_ivs(comb._gvcf_import_intervals))
+                self._check_load(c, saved, comb, contigs, lens)
             comb.step()
             lines.append(self._dump(comb))
         return lines, rec, comb
+
+    def _check_load(self, c, saved, loaded, contigs, lens):
+        """the resumed combiner is the saved one (every serialized field; the bins of _vdses as a multiset, see save_load_id_partial)
+        and its import intervals still tile every contig"""
+        if self.load_problems:
+            return
+        if c.get('ivsize'):
+            m = self._tiling_problem(loaded._gvcf_import_intervals, contigs, lens, c['ivsize'], self.rg)
+            if m:
+                self.load_problems.append('import intervals of the combiner resumed from its saved plan: ' + m)
+                return
+        for slot in type(saved).__serialized_slots__:
+            a, b = getattr(saved, slot), getattr(loaded, slot)
+            if slot == '_vdses':
+                fa = sorted((md.path, md.n_samples) for v in a.values() for md in v)
+                fb = sorted((md.path, md.n_samples) for v in b.values() for md in v)
+                if fa != fb:
+                    self.load_problems.append(f'load(save()) changed the datasets of the plan: {fa[:4]} -> {fb[:4]}')
+                    return
+            elif a != b:
+                if slot == '_gvcf_import_intervals' and len(a) == len(b):
+                    k = next(i for i in range(len(a)) if a[i] != b[i])
+                    a, b = f'interval {k}: {a[k]}', f'{b[k]}'
+                self.load_problems.append(f'load(save()) changed {slot}: {str(a)[:150]} -> {str(b)[:150]}')
+                return
+
+    @staticmethod
+    def _tiling_problem(ivs, contigs, lengths, size, rg):
+        pos = 0
+        for ctg, L in zip(contigs, lengths):
+            nxt = 1
+            while pos < len(ivs) and ivs[pos].start.contig == ctg:
+                iv = ivs[pos]
+                if iv.end.contig != ctg or iv.start.reference_genome is not rg or iv.end.reference_genome is not rg:
+                    return f'{ctg}: interval {iv} leaves the contig / reference genome'
+                # first and last base actually covered, honouring includes_start / includes_end
+                s = iv.start.position + (0 if iv.includes_start else 1)
+                e = iv.end.position - (0 if iv.includes_end else 1)
+                if s != nxt:
+                    return (f'{ctg} (length {L}, size {size}): interval {iv} covers bases {s}..{e}, expected to start at {nxt} '
+                            + ('(overlap)' if s < nxt else f'(base {nxt} is not covered)'))
+                if e < s:
+                    return f'{ctg}: empty interval {iv}'
+                if e - s + 1 > size:
+                    return f'{ctg} (length {L}): interval {iv} has {e - s + 1} bases, more than the requested {size}'
+                if e > L:
+                    return f'{ctg} (length {L}): interval {iv} ends beyond the contig'
+                nxt = e + 1
+                pos += 1
+            if nxt != L + 1:
+                return f'{ctg} (length {L}, size {size}): bases {nxt}..{L} are not covered'
+        if pos != len(ivs):
+            return f'intervals out of contig order from index {pos}: {ivs[pos]}'
+        return None
 
     def impl(self, c):
         if c['kind'] == 'part':
@@ -523,6 +622,8 @@ class C38(Prop):
             return f'constructor accepted branch_factor={c["bf"]}, gvcf_batch_size={c["batch"]}'
         if rec.errors:
             return rec.errors[0]
+        if self.load_problems:
+            return self.load_problems[0]
         if not comb.finished:
             return f'not finished after {len(c["resume"])} steps (2*gvcfs + vdses + 2): {lines[-1]}'
         inputs = sorted([f'g{i}' for i in range(c['g'])] + [f'v{1000 + i}' for i in range(len(c['vds']))])
@@ -574,7 +675,8 @@ class C38(Prop):
                 f'plan vdses={"0" if not c["vds"] else "1-3" if len(c["vds"]) <= 3 else "4+"}',
                 'plan resume=' + ('none' if not any(c['resume']) else 'all' if all(c['resume']) else 'some'),
                 f'plan state-changes={min(merges, 6)}{"+" if merges >= 6 else ""}',
-                'plan names' if c['names'] else 'plan no-names']
+                'plan names' if c['names'] else 'plan no-names',
+                'plan import-intervals' + ('' if c.get('ivsize') else '=none') + (' reloaded' if c.get('ivsize') and any(c['resume']) else '')]
         if self._anomalies(c):
             tags.append('plan float-log-anomaly')
         return (json.dumps(c, sort_keys=True) if merges >= 3 else None, tags)
